@@ -21,6 +21,7 @@ def jobs(tier, seed):
     for j in c02.jobs('quick', seed):
         if names is None or j['name'] in names:
             j = dict(j); j['cfg'] = {'gens': 1 if tier == 'quick' else 2, 'dump': 1, 'obsfiles': 0}; j['family'] = 'file'
+            if tier == 'thorough': j['opts'] = dict(j['opts'], symbolic_meta=False)
             if tier == 'quick': j['opts'] = dict(j['opts'], extras=j['opts'].get('extras', [])[:1], symbolic_meta=False); j['shape'] = dict(j['shape'], F=1)
             out.append(j)
     # a file shorter than it declares (the repository ships and tests one: Optotrak.c3d is cut inside its data section)
@@ -43,7 +44,7 @@ def run_job(engine, job):
         eng = engine(o)
         eng.track_undef_branches = (o == 'O0')
         q0 = eng.sc.queries; t0 = eng.sc.time
-        runs[o] = api.run_fn(eng, job['entry'], cfg=job.get('cfg'), files=files, assume=assume, wall=250, maxsteps=200_000_000)
+        runs[o] = api.run_fn(eng, job['entry'], cfg=job.get('cfg'), files=files, assume=assume, wall=250 if len(opts) <= 3 else 1200, maxsteps=400_000_000)
         q += eng.sc.queries - q0; tsol += eng.sc.time - t0
         for r in runs[o]:
             add_path(res, r)
